@@ -139,6 +139,24 @@ func (m Map) KeyAtRank(rank float64) (int, bool) {
 	return bins[len(bins)-1].Index, true
 }
 
+// KeyAtRankSorted is KeyAtRank over bins already sorted by index (ascending).
+func KeyAtRankSorted(bins []Bin, rank float64) (int, bool) {
+	if len(bins) == 0 {
+		return 0, false
+	}
+	if rank < 0 {
+		rank = 0
+	}
+	c := 0.0
+	for _, b := range bins {
+		c += b.Count
+		if c > rank {
+			return b.Index, true
+		}
+	}
+	return bins[len(bins)-1].Index, true
+}
+
 // ProbeRanks returns the rank probes of DESIGN §1.1: -1, 0, every cumulative
 // boundary and its neighbours half a quantum away, total, total+1.
 func (m Map) ProbeRanks(halfQuantum float64, maxBoundaries int) []float64 {
